@@ -1,27 +1,28 @@
-"""Registry: which harnesses decide which property, with bounds and trusted base."""
+"""Registry: which harnesses decide which property, with bounds and trusted base.
+One file per property under /verif/lib/props/<ID>.py defining PROP = dict(...)."""
+import glob
+import importlib.util
+import os
 
 PROPS = {}
 
 
 def H(crate, module, name, what, tier="quick", timeout=300, timeout_thorough=None, bounds="", **kw):
+    """One Kani harness = one set of solver queries.
+    tier: 'quick' (run in both tiers) or 'thorough' (thorough tier only).
+    timeout: wall cap in seconds in the quick tier; timeout_thorough in the thorough tier."""
     d = dict(crate=crate, module=module, name=name, what=what, tier=tier, timeout=timeout,
              timeout_thorough=timeout_thorough or max(timeout, 1800), bounds=bounds)
     d.update(kw)
     return d
 
 
-NP = "ntp_proto_h"
-
-PROPS["C32"] = dict(
-    functions=["ntp_proto::time_types::{NtpTimestamp,NtpDuration} operator impls"],
-    bounds="full 64-bit ranges",
-    outside="",
-    assumptions=[],
-    harnesses=[
-        H(NP, "c32", "c32_ts_sub_add", "timestamp difference is the shortest signed difference and adds back"),
-        H(NP, "c32", "c32_dur_neg_abs", "negation/abs saturate"),
-    ],
-)
+for _f in sorted(glob.glob(os.path.join(os.path.dirname(__file__), "props", "C*.py"))):
+    _spec = importlib.util.spec_from_file_location("prop_" + os.path.basename(_f)[:-3], _f)
+    _m = importlib.util.module_from_spec(_spec)
+    _m.H = H
+    _spec.loader.exec_module(_m)
+    PROPS[os.path.basename(_f)[:-3]] = _m.PROP
 
 NOT_APPLICABLE = {
     "C06": "per-measurement Kalman update multiplies/divides/inverts symbolic f64 (2x2 inverse, exp, sqrt) over histories with feedback; bit-blasting one update is out of reach and no inductive finite invariant is available without real-number reasoning",
